@@ -1251,7 +1251,10 @@ class Pool:
                 # already accepted by process
                 if acked_by_gone:
                     self.on_job_process_down(job, acked_by_gone)
-                    if not job.ready():
+                    # (mark a job lost only once: a later pass, triggered by
+                    # some other worker exiting, no longer knows the exit
+                    # status and must not restart the grace period.)
+                    if not job.ready() and not job._worker_lost:
                         exitcode = exitcodes.get(acked_by_gone) or 0
                         proc = cleaned.get(acked_by_gone)
                         if proc and getattr(proc, '_job_terminated', False):
